@@ -575,13 +575,16 @@ type seg2 [2][2]float64
 
 func drawSegments(t *rapid.T, f32 bool) ([]seg2, []string) {
 	n := 0
-	switch rapid.IntRange(0, 9).Draw(t, "size") {
+	switch rapid.IntRange(0, 10).Draw(t, "size") {
 	case 0:
 		n = 0
 	case 1:
 		n = 1
 	case 2, 3, 4, 5, 6:
 		n = rapid.IntRange(2, 12).Draw(t, "n")
+	case 10:
+		// several channel batches (the streaming writers receive the segments 128 at a time)
+		n = rapid.SampledFrom([]int{127, 128, 129, 257, 300, 1000}).Draw(t, "n-multi-batch")
 	default:
 		n = rapid.IntRange(13, 60).Draw(t, "n")
 	}
